@@ -483,10 +483,19 @@ impl<M: Manager, W: From<Object<M>>> Pool<M, W> {
      * always reports a `max_size` of 0 for closed pools.
      */
     pub fn resize(&self, max_size: usize) {
-        if self.inner.semaphore.is_closed() {
+        self.resize_or_close(max_size, false);
+    }
+
+    /// Resizes the pool and optionally closes it. Both are done while the
+    /// slots lock is held, so a `resize()` racing with `close()` either
+    /// happens entirely before it or sees the closed pool and does nothing.
+    fn resize_or_close(&self, max_size: usize, close: bool) {
+        let mut slots = self.inner.slots.lock().unwrap();
+        if close {
+            self.inner.semaphore.close();
+        } else if self.inner.semaphore.is_closed() {
             return;
         }
-        let mut slots = self.inner.slots.lock().unwrap();
         let old_max_size = slots.max_size;
         slots.max_size = max_size;
         let mut released = Vec::new();
@@ -600,8 +609,7 @@ impl<M: Manager, W: From<Object<M>>> Pool<M, W> {
     ///
     /// This operation resizes the pool to 0.
     pub fn close(&self) {
-        self.resize(0);
-        self.inner.semaphore.close();
+        self.resize_or_close(0, true);
     }
 
     /// Indicates whether this [`Pool`] has been closed.
